@@ -115,6 +115,13 @@ impl World {
                 self.tokens.insert(id, u);
                 ib.add_property("UniqueId", Variant::UniqueId(id));
             }
+            // a UniqueId-typed value under another name (Instance.HistoryId is one) equal to an id some builder
+            // uses as its UniqueId: the specification's bookkeeping is about the UniqueId property alone, so this
+            // must make no difference to any outcome
+            let label = node["label"].as_i64().unwrap();
+            if label % 2 == 0 {
+                ib.add_property("HistoryId", Variant::UniqueId(uid_of_token(1 + label.rem_euclid(3))));
+            }
             builders[i] = Some(ib);
         }
         let mut children: Vec<Vec<usize>> = vec![Vec::new(); nodes.len()];
@@ -180,6 +187,7 @@ impl World {
                 lab = -7;
             }
             let mut saw_value = false;
+            let mut saw_history = false;
             for (pn, pv) in &props {
                 if pn == "Value" {
                     saw_value = true;
@@ -199,11 +207,17 @@ impl World {
                         }
                         _ => lab = -7,
                     }
+                } else if pn == "HistoryId" {
+                    // the builder's constant companion value: present exactly on even labels, unchanged
+                    saw_history = true;
+                    if lab < 0 || lab % 2 != 0 || *pv != Variant::UniqueId(uid_of_token(1 + lab.rem_euclid(3))) {
+                        lab = -7;
+                    }
                 } else {
                     lab = -7;
                 }
             }
-            if !saw_value {
+            if !saw_value || (lab >= 0 && lab % 2 == 0 && !saw_history) {
                 lab = -7;
             }
             if self.root_label_override && class == "DataModel" && name == "DataModel" && props.iter().all(|(n, _)| n == "UniqueId" || n.starts_with("RefProp")) {
@@ -495,12 +509,14 @@ fn random_steps(w: &mut World, rng: &mut StdRng, steps: usize, uid_pool: i64, la
                 } else if which == 1 {
                     json!({"op": "clone", "d": d + 1, "rs": [r], "e": 2 - d})
                 } else {
-                    // a second disjoint root if there is one and room
+                    // a second root if there is room: usually disjoint, sometimes the same instance again or an
+                    // instance inside / around the first root's subtree
                     let sub = w.subtree(d, r);
+                    let overlapping = rng.gen_bool(0.25);
                     let others: Vec<i64> = live
                         .iter()
                         .copied()
-                        .filter(|x| !sub.contains(x) && !w.subtree(d, *x).contains(&r))
+                        .filter(|x| overlapping || (!sub.contains(x) && !w.subtree(d, *x).contains(&r)))
                         .collect();
                     if !others.is_empty() {
                         let r2 = others[rng.gen_range(0..others.len())];
